@@ -597,6 +597,9 @@ func (s *Server) execute(p *prepared, bp *boundParams, tx *Tx) (*rowset, string,
 			// existing rows must satisfy it
 			seen := map[string]bool{}
 			for _, r := range t.Rows {
+				if r.delSeq != 0 {
+					continue
+				}
 				k, hasNull := "", false
 				for _, ci := range ix.Cols {
 					if r.Vals[ci] == nil {
